@@ -58,6 +58,10 @@ func init() {
 				s.Secondary = true
 			}
 		}
+		// identifier positions: the front ends refuse almost every hostile string; quick tier = reduced set
+		if s.Quote.Name == "whole" || s.Quote.Name == "suffix" {
+			s.Secondary = true
+		}
 	}
 }
 
